@@ -17,6 +17,11 @@ M = [
  ("left_terminal_weight_dropped", "stochastic.py", "                prefix.bond_descriptors[0].transitions = self.left_terminal.transitions\n", "", ["C08"]),
  ("cap_from_repeat_units", "stochastic.py", "connecting_bond_idx = choose_compatible_weight(self.end_bonds, starting_bond, rng)\n\n                token = self.end_tokens[self.end_bond_token_idx[connecting_bond_idx]]\n                connecting_bond = self.end_bonds[connecting_bond_idx]", "connecting_bond_idx = choose_compatible_weight(self.repeat_bonds, starting_bond, rng)\n\n                token = self.repeat_tokens[self.repeat_bond_token_idx[connecting_bond_idx]]\n                connecting_bond = self.repeat_bonds[connecting_bond_idx]", ["C06", "C07"]),
  ("weight_of_sanitized_h", "mol_gen.py", "return rdDescriptors.HeavyAtomMolWt(self._mol)", "return rdDescriptors.MolWt(self.mol)", ["C05"]),
+ ("sz_mw_mn_swapped", "distribution.py", "self._Mw, self._Mn = make_tuple(self._raw_text[len(\"schulz_zimm\") :])", "self._Mn, self._Mw = make_tuple(self._raw_text[len(\"schulz_zimm\") :])\n        self._Mn, self._Mw = min(self._Mn, self._Mw) * 1.0, max(self._Mn, self._Mw) * 1.0\n        self._z0 = 1", ["C09", "C11"]),
+ ("gauss_sigma_is_variance", "distribution.py", "self._distribution = stats.norm(loc=self._mu, scale=self._sigma)", "self._distribution = stats.norm(loc=self._mu, scale=np.sqrt(self._sigma))", ["C09", "C11"]),
+ ("uniform_scale_is_high", "distribution.py", "stats.uniform(loc=self._low, scale=(self._high - self._low))", "stats.uniform(loc=self._low, scale=self._high)", ["C09", "C11"]),
+ ("lognormal_mean_shift", "distribution.py", "(np.log(m / M) + np.log(D) / 2) ** 2", "(np.log(m / M) - np.log(D) / 2) ** 2", ["C09", "C11"]),
+ ("draw_hoisted_one_target_per_molecule", "stochastic.py", "            target_mol_weight = self.distribution.draw_mw(rng)\n", "            target_mol_weight = _shared_target(self, rng)\n", ["C09"]),
  ("deepcopy_shallow", "mol_gen.py", "self.bond_descriptors = copy.deepcopy(token.bond_descriptors)", "self.bond_descriptors = list(token.bond_descriptors)", ["C10"]),
 ]
 
